@@ -2,7 +2,10 @@
   Line handler for C17 (coercion preserves the value or fails).
 
     H <helper> <tgt> SRC | ORACLE          helper ∈ toInt64 toInteger toFloat64 toFloat toBool toString toBigInt to
-    S <tgt> <op> <bkind> <bval> SRC | ORACLE   coercing schema with one check (op = none|lt|lte|gt|gte|minlen|maxlen)
+    S <tgt> <ptr 0|1> <n> (<op> <bkind> <bval>)^n SRC | ORACLE   coercing schema AND plain schema with a chain of n checks:
+         lt|lte|gt|gte i64|f64|big <bound>   mul i64|f64|big <divisor>   minlen|maxlen n <len>   prefix h <hex>   refine - -
+         observation "<coercing schema> ~ <plain schema on coerce.To[T](input) (on the input itself when it has the type)>":
+         model = `CoerceSchema.parseValue` ~ `CoerceSchema.plainOnCoerced` / `parsePlain` (the two sides of `C17S.c17_schema_eq`)
 
     tgt  ∈ i8 … uint | f32 | f64 | bool | str | big
     SRC  := <intkind> <dec> | f32 <bits> <fmthex> | f64 <bits> <fmthex> | bool 0|1 | big <dec> | nil | other
@@ -15,11 +18,12 @@
        srt  = 1|0|-   does the FormatFloat text denote (math/big) a value that rounds back to the source
        bden = t|f|E   the documented truthy table, for string sources
 
-  Output: "<model>\t<spec>\t<flags>"; observations are `ok <canon>` | `err` (+ " c1" for S lines).
+  Output: "<model>\t<spec>\t<flags>"; observations are `ok <canon>` | `err`.
 -/
 import Gozod.Model.Coerce
+import Gozod.Model.CoerceSchema
 namespace Gozod.Drv.C17
-open Gozod Gozod.Coerce
+open Gozod Gozod.Coerce Gozod.CoerceSchema
 
 def hexVal (c : Char) : Option Nat :=
   if '0' ≤ c ∧ c ≤ '9' then some (c.toNat - '0'.toNat)
@@ -232,12 +236,6 @@ def flags (t : Tgt) (c : Case) : String :=
   let f := r ++ b ++ z
   if f == "" then "-" else f
 
-/-- X = a BigInt bound whose float64 comparison differs from the comparison of the integers. -/
-def bigFlag (t : Tgt) (k : Chk) (c : Case) : String :=
-  match t, k, c.den.int? with
-  | .big, .cmpBig op b, some n => if bigCmpExact op n b != op.holdsInt n b then "X" else ""
-  | _, _, _ => ""
-
 def runHelper (h : String) (t : Tgt) (c : Case) : Option (R Val) :=
   let f32 : F → List Nat := fun _ => c.fmt
   let f64 : F → List Nat := fun _ => c.fmt
@@ -260,38 +258,53 @@ def parseBound (kind val : String) : Option Num :=
     let v ← val.toInt?
     if t.inRange v then some (Num.ofInt t v) else none
 
-def parseChk (op kind val : String) : Option Chk :=
+def parseCP (op kind val : String) : Option CP :=
   match op with
-  | "none" => some .nochk
-  | "minlen" => val.toNat?.map Chk.minLen
-  | "maxlen" => val.toNat?.map Chk.maxLen
+  | "minlen" => val.toNat?.map CP.minLen
+  | "maxlen" => val.toNat?.map CP.maxLen
+  | "prefix" => (unhex val).map CP.hasPrefix
+  | "refine" => some .refine
+  | "mul" =>
+    if kind == "big" then val.toInt?.map CP.mulBig
+    else (parseBound kind val).map CP.mul
   | _ =>
     if kind == "big" then do let o ← CmpOp.ofString? op; let b ← val.toInt?; pure (.cmpBig o b)
     else do let o ← CmpOp.ofString? op; let b ← parseBound kind val; pure (.cmp o b)
 
-/-- The check as the documentation states it (mathematical order via `specCmp`, byte length). -/
-def specHolds (t : Tgt) (c : Chk) (v : Val) : Bool :=
-  match c, v with
-  | .nochk, _ => true
-  | .cmp op b, .int n => (match t with
-      | .int ty => specCmp op (Num.ofInt ty n) b
-      | _ => true)
-  | .cmp op b, .flt x => specCmp op (.f x) b
-  | .minLen n, .str bs => decide (n ≤ bs.length)
-  | .maxLen n, .str bs => decide (bs.length ≤ n)
-  -- BigInt bounds: the comparison of the integers (exact since the big.Int.Cmp fix)
-  | .cmpBig op b, .int n => (match t with
-      | .big => op.holdsInt n b
-      | _ => true)
-  | _, _ => true
+def parseCPs : Nat → List String → Option (List CP × List String)
+  | 0, rest => some ([], rest)
+  | n + 1, op :: k :: v :: rest => do
+    let c ← parseCP op k v
+    let (cs, rest) ← parseCPs n rest
+    pure (c :: cs, rest)
+  | _, _ => none
 
-def specSchema (t : Tgt) (k : Chk) (c : Case) : Option Val :=
+/-- What a correct schema answers: the value a correct coercion yields (the input itself when it has the
+    type), provided every check holds in its DOCUMENTED meaning (`CoerceSchema.specHolds`; the float ε-rule
+    has none: there the code's rule is the oracle, as in C16's `fmul` lines). -/
+def specSchema (t : Tgt) (ks : List CP) (c : Case) : Option Val :=
   let v? := match exact t c.src with
     | some v => some v
     | none => specVal t c
   match v? with
-  | some v => if specHolds t k v then some v else none
+  | some v => if ks.all (fun k => (specHolds t k v).getD (holds t k v)) then some v else none
   | none => none
+
+/-- X = a BigInt bound where the comparison through float64 (the code before /repo 4945548,
+    `Coerce.bigCmpViaFloat`) differs from the comparison of the integers: how often the run reaches the
+    region that distinguishes the two. E = a check without exact specification (float MultipleOf). -/
+def chainFlags (t : Tgt) (ks : List CP) (c : Case) : String :=
+  let x := ks.any (fun k => match t, k, c.den.int? with
+    | .big, .cmpBig op b, some n => bigCmpViaFloat op n b != op.holdsInt n b
+    | _, _, _ => false)
+  let e := match (match exact t c.src with | some v => some v | none => specVal t c) with
+    | some v => ks.any (fun k => (specHolds t k v).isNone)
+    | none => false
+  (if x then "X" else "") ++ (if e then "E" else "")
+
+def outToR : Prim.Out Val → R Val
+  | .okVal v => .ok v
+  | _ => .error .check
 
 /-- A float source, if the source is one. -/
 def floatSrc : Src → Option F
@@ -354,14 +367,30 @@ def handle : List String → String
       | some r => s!"{showModelStr t c r}\t{showSpecStr t c (specVal t c)}\t{flags t c}"
       | none => "bad-op"
     | _, _ => "bad-op"
-  | "S" :: tg :: op :: bk :: bv :: rest =>
-    match parseTgt tg, parseChk op bk bv, parseCase rest with
-    | some t, some k, some c =>
-      let m := parseCoerced (fun _ => c.fmt) (fun _ => c.fmt) t k c.src
-      let fl := flags t c
-      let fl := if bigFlag t k c == "" then fl else (if fl == "-" then "X" else fl ++ "X")
-      s!"{showModelStr t c m} c1\t{showSpecStr t c (specSchema t k c)} c1\t{fl}"
-    | _, _, _ => "bad-op"
+  | "S" :: tg :: pt :: n :: rest =>
+    match parseTgt tg, n.toNat? with
+    | some t, some n =>
+      match parseCPs n rest with
+      | some (ks, rest) =>
+        match parseCase rest with
+        | some c =>
+          let ptr := pt == "1"
+          let fm : F → List Nat := fun _ => c.fmt
+          let sc : Schema := { tgt := t, checks := ks, coerce := true }
+          -- left: the coercing schema (`parsePrimitiveValue` with `internals.Coerce`);
+          -- right: the PLAIN schema (C01's `Prim.parse`) on `coerce.To[T](input)` — on the input itself when it has the type
+          let left := parseValue fm fm sc ptr c.src
+          let right := match exact t c.src with
+            | some _ => parsePlain sc.plain ptr c.src
+            | none => plainOnCoerced fm fm sc c.src
+          let sp := showSpecStr t c (specSchema t ks c)
+          let fl := flags t c
+          let cf := chainFlags t ks c
+          let fl := if cf == "" then fl else (if fl == "-" then cf else fl ++ cf)
+          s!"{showModelStr t c (outToR left)} ~ {showModelStr t c (outToR right)}\t{sp} ~ {sp}\t{fl}"
+        | none => "bad-op"
+      | none => "bad-op"
+    | _, _ => "bad-op"
   | _ => "bad-op"
 
 end Gozod.Drv.C17
